@@ -14,7 +14,7 @@ func c16Ext(r *h.Result, rng *h.Rng, tier string, ops, impl *[]string, cases *[]
 	nDiff, nPM, nE2E := 400, 400, 40
 	switch tier {
 	case "thorough":
-		nDiff, nPM, nE2E = 8000, 8000, 800
+		nDiff, nPM, nE2E = 6000, 6000, 600
 	case "search":
 		nDiff, nPM, nE2E = 3000, 3000, 300
 	}
